@@ -133,6 +133,8 @@ struct UnitOut {
 struct Unit {
     set_idx: usize,
     tuple: Tuple,
+    /// 0 = signature faults; 1 = private-key store faults; 2 = public-key store faults (bijection clause)
+    keycodec: u8,
     whole: bool,
     lo: usize,
     hi: usize,
@@ -171,7 +173,55 @@ fn faults_for(info: &SetInfo, seed: u64, u: &Unit) -> Vec<SigFault> {
     v
 }
 
+/// Bijection clause at key level: a stored key with one flipped bit that still loads must serialise
+/// back to exactly the corrupted bytes (two different byte strings are never read as the same key).
+fn run_key_unit(set: &dyn DynSet, u: &Unit, run: u64) -> UnitOut {
+    let mut out = UnitOut::default();
+    let info = set.info();
+    let (pk, sk) = set.keygen_seed(&u.tuple.xi);
+    let honest = if u.keycodec == 1 { sk.to_bytes() } else { pk.to_bytes() };
+    let what = if u.keycodec == 1 { "private" } else { "public" };
+    for bit in u.lo..u.hi.min(honest.len() * 8) {
+        let mut x = honest.clone();
+        x[bit / 8] ^= 1 << (bit % 8);
+        out.evals += 1;
+        *out.fired.entry(format!("store_bitflip_{what}_key")).or_insert(0) += 1;
+        let re: Result<Option<Vec<u8>>, String> = catch(|| {
+            if u.keycodec == 1 {
+                set.sk_from_bytes(&x).ok().map(|k| k.to_bytes())
+            } else {
+                set.pk_from_bytes(&x).ok().map(|k| k.to_bytes())
+            }
+        });
+        let verdict = match &re {
+            Ok(None) => "rejected",
+            Ok(Some(b)) if *b == x => "roundtrip",
+            Ok(Some(_)) => "differs",
+            Err(_) => "panic",
+        };
+        out.sigs.insert(format!("{}|{what}_key_bitflip|{}", info.name, verdict));
+        if verdict == "differs" || verdict == "panic" {
+            let inv = format!("key-reencode-{verdict}:{what}");
+            out.viols.push(Violation {
+                run,
+                invariant: inv.clone(),
+                finding_key: inv,
+                body: json!({"set": info.name, "xi": hx(&u.tuple.xi), "key": what, "bit": bit,
+                    "observed": format!("a stored {what} key with bit {bit} flipped is accepted but serialises back to different bytes (or panics): two byte strings read as the same key"),
+                    "expected": "rejected, or identical bytes"}),
+            });
+            if out.viols.len() >= 2 {
+                break;
+            }
+        }
+    }
+    out
+}
+
 fn run_unit(ctx: &Ctx, set: &dyn DynSet, u: &Unit, run: u64) -> UnitOut {
+    if u.keycodec != 0 {
+        return run_key_unit(set, u, run);
+    }
     let mut out = UnitOut::default();
     let info = set.info();
     let b = match catch(|| build(set, &u.tuple)) {
@@ -266,12 +316,23 @@ pub fn run(ctx: &Ctx) -> i32 {
             let mut lo = 0;
             while lo < total {
                 let hi = (lo + 8192).min(total);
-                units.push(Unit { set_idx: si, tuple: t.clone(), whole: true, lo, hi, idx: 1 + v });
+                units.push(Unit { set_idx: si, tuple: t.clone(), keycodec: 0, whole: true, lo, hi, idx: 1 + v });
                 lo = hi;
             }
         }
         for v in 0..hint_per_set {
-            units.push(Unit { set_idx: si, tuple: mk("hint", v), whole: false, lo: 0, hi: 0, idx: v });
+            units.push(Unit { set_idx: si, tuple: mk("hint", v), keycodec: 0, whole: false, lo: 0, hi: 0, idx: v });
+        }
+        for v in 0..whole_per_set.div_ceil(2) {
+            let t = mk("key", v);
+            for (kc, len) in [(1u8, info.sk_len), (2u8, info.pk_len)] {
+                let mut lo = 0;
+                while lo < 8 * len {
+                    let hi = (lo + 4096).min(8 * len);
+                    units.push(Unit { set_idx: si, tuple: t.clone(), keycodec: kc, whole: true, lo, hi, idx: 1 + v });
+                    lo = hi;
+                }
+            }
         }
     }
     let outs = run_indexed(units.len(), ctx.workers, |i| run_unit(ctx, all[units[i].set_idx], &units[i], i as u64));
@@ -313,7 +374,7 @@ pub fn run(ctx: &Ctx) -> i32 {
         level: "fault_enumeration",
         evaluations: evals,
         signatures: sigs.into_iter().collect(),
-        rule: "Per seeded honest signature: every single-bit flip of c-tilde and z (whole-signature sweep on a few signatures per set); on many more signatures every single-bit flip of the hint section, stuck-at {00, FF, 7F, 80, 01} at every hint byte, reorder (swap) and duplication of adjacent hint bytes - the channel's reorder/duplicate faults at byte granularity - and seeded 2..4-bit rot and random swaps inside the hint section. Oracle, both directions, against a restated Algorithm 21 as reference model: sigDecode (through the verif-hooks wrapper) accepts iff the model accepts, and every accepted byte string re-encodes to itself. A case is distinct by (set, fault kind, rule of Algorithm 21 the corrupted hint section breaks or `wellformed`).".into(),
+        rule: "Per seeded honest signature: every single-bit flip of c-tilde and z (whole-signature sweep on a few signatures per set); on many more signatures every single-bit flip of the hint section, stuck-at {00, FF, 7F, 80, 01} at every hint byte, reorder (swap) and duplication of adjacent hint bytes - the channel's reorder/duplicate faults at byte granularity - and seeded 2..4-bit rot and random swaps inside the hint section. Oracle, both directions, against a restated Algorithm 21 as reference model: sigDecode (through the verif-hooks wrapper) accepts iff the model accepts, and every accepted byte string re-encodes to itself. Key-level stratum for the bijection clause: every single-bit flip of a stored private and public key; whatever still loads must serialise back to exactly the corrupted bytes. A case is distinct by (set, fault kind, rule of Algorithm 21 the corrupted hint section breaks or `wellformed`).".into(),
         samples,
         exhaustive: false,
         extra: json!({
@@ -338,6 +399,14 @@ pub fn run(ctx: &Ctx) -> i32 {
 
 pub fn replay_body(body: &Value) -> Result<Option<(String, String, String)>, String> {
     let set = sets::set_by_name(body["set"].as_str().ok_or("no set")?).ok_or("set not compiled in")?;
+    if let Some(what) = body["key"].as_str() {
+        let kc = if what == "private" { 1 } else { 2 };
+        let bit = body["bit"].as_u64().ok_or("no bit")? as usize;
+        let t = Tuple { mode: crate::sets::Mode::Pure, xi: unhx32(&body["xi"]), rnd: [0; 32], msg: vec![], ctx: vec![], prov: PkProv::Generated };
+        let u = Unit { set_idx: 0, tuple: t, keycodec: kc, whole: true, lo: bit, hi: bit + 1, idx: 0 };
+        let o = run_key_unit(set, &u, 0);
+        return Ok(o.viols.first().map(|v| (v.invariant.clone(), v.body["observed"].as_str().unwrap_or("").to_string(), "rejected, or identical bytes".to_string())));
+    }
     let x = if body["faulted_signature"].is_string() {
         unhx(&body["faulted_signature"])
     } else {
